@@ -20,10 +20,23 @@ def _class_info(spec, cls_idx_line):
 
 def substring_ids(spec):
     """worker ids of which one is a substring of another (net1 / net11): the code identifies a worker's copies by
-    `worker.id in name`, so a worker then acts on another worker's copies (finding F4) - outside the model's hypothesis
-    that a copy is cared for by one worker; such cases are judged by the monitors only"""
+    `worker.id in name`, so a worker then acts on another worker's copies (finding F4) - outside the hypothesis
+    `OwnerNames` of the theorems; such cases are judged by the monitors, and compared with the model where the model is
+    known to follow the code (`model_covers_substring_case`)"""
     ids = [w["id"].split(".")[-1] for w in spec["workers"]] + [w["id"] for w in spec["workers"]]
     return any(a != b and a in b for a in ids for b in ids if not b.endswith("." + a))
+
+
+def model_covers_substring_case(spec, res):
+    """substring-id cases the Lean model is REQUIRED to reproduce block by block (a disagreement there is reported like any
+    other): the pinned corpus cases - pre-parsed graphs without object roots, in which the only effect of a worker acting on a
+    foreign copy is that its state requests and the states its test produces go to the pool of the copy's own worker
+    (`Graph.netOf`).  Generated streams contain no substring ids; for other substring cases (replays, future corpus entries
+    with object roots or lazy expansion) the comparison stays informative only - see design.d/C08.md for the three mechanisms
+    the model does not follow yet."""
+    ident = res.get("ident") or ()
+    return (len(ident) > 0 and ident[0] == "corpus" and not spec.get("lazy") and not spec.get("parsed")
+            and not any(c.get("root_of") for c in spec.get("classes", [])))
 
 
 def classify(monitor, item, spec, res):
@@ -215,7 +228,13 @@ def judge(ctx, results, monitors, label="trav"):
         if r["kinds"].get("raise"):
             ctx.count("runs-with-raise")
         ctx.count("executions", r["n_exec"])
-        if r["disagree"] and substring_ids(spec):
+        if substring_ids(spec) and not r["disagree"]:
+            ctx.count("model-agrees:worker-id-substring-of-another")
+        if r["disagree"] and substring_ids(spec) and not model_covers_substring_case(spec, r):
+            # the residue of the former blanket skip (design.d/C08.md, "worker ids that are substrings of one another"): the
+            # model now sends state requests to the pool of the copy's own worker, as the code does; it does not yet follow a
+            # worker that creates an object on a foreign object root, the retry suffix two concurrent executions of ONE copy
+            # leave in its prefix, or the parse-order tie-break between copies of a class during lazy expansion
             ctx.count("model-comparison-skipped:worker-id-substring-of-another")
         elif r["disagree"] and spec.get("monitors_only") and spec.get("lazyparsed"):
             ctx.count("model-comparison-skipped:" + spec["monitors_only"])
